@@ -201,6 +201,21 @@ def run(tier, seed, rng, known, replay):
         found = bool(why)
         if not why and ans != want:
             why = 'attempt outcomes differ from DC.Recipes: impl %s model %s' % (want[:120], ans[:120])
+            # an acquire that succeeded although the model (which tracks the holders through the same event
+            # sequence) says the resource was not available IS the violation: more holders than allowed
+            mo = ans[3:].split(',') if len(ans) > 3 else []
+            for e, m_ok in zip(r['events'], mo):
+                if e[1] == 'a' and e[2] == 1 and m_ok == '0':
+                    why = 'contender %d acquired while the resource was held by others (event sequence %s): more holders than allowed' % (
+                        e[0], ','.join('%s%d%s' % (x[1], x[0], '' if x[2] else '!') for x in r['events'])[:200])
+                    found = True
+                    break
+                if e[1] == 'r' and e[2] == 1 and m_ok == '0':
+                    why = 'contender %d released something it did not hold and the release was accepted' % e[0]
+                    found = True
+                    break
+                if str(e[2]) != m_ok:
+                    break
         if why and len(violations) < 3:
             violations.append({'replay': {'property': 'C15', 'case_seed': c['seed'], 'kind': c['kind'], 'clients': c['clients'], 'limit': c['limit'],
                                           'shared_object': c['shared'], 'fanout': c['fanout'], 'events': r['events'], 'model_answer': ans,
